@@ -1,6 +1,7 @@
 package witness
 
 import (
+	"bytes"
 	"testing"
 
 	"github.com/gofiber/fiber/v3"
@@ -19,5 +20,41 @@ func TestF1_ConstraintLiteralFallback(t *testing.T) {
 	}
 	if rc := do(app, "GET", "/user/42"); rc.Response.StatusCode() != 200 {
 		t.Fatalf("valid value rejected")
+	}
+}
+
+// F19: a named (non-greedy) parameter never spans a '/': the single-byte delimiter search and the
+// fixed-length branch of findParamLen did not look for one.
+func TestF19_NamedParameterNeverSpansSlash(t *testing.T) {
+	for _, tc := range []struct{ pattern, path string }{
+		{"/:a-:b", "/x/y-z"},
+		{"/:a.:b", "/x/y.z"},
+		{"/:a:b", "//x"},
+	} {
+		app := fiber.New()
+		var got string
+		app.Get(tc.pattern, func(c fiber.Ctx) error { got = c.Params("a"); return nil })
+		rc := do(app, "GET", tc.path)
+		if rc.Response.StatusCode() == 200 && bytes.IndexByte([]byte(got), '/') >= 0 {
+			t.Errorf("%s on %s: handler ran with a=%q (spans a slash)", tc.pattern, tc.path, got)
+		}
+	}
+}
+
+type rejectAll struct{ name string }
+
+func (r rejectAll) Name() string                 { return r.name }
+func (rejectAll) Execute(string, ...string) bool { return false }
+
+// F20: with the default case-insensitive routing the pattern is lower-cased before it is parsed,
+// so a custom constraint registered under a mixed-case name was never found and silently accepted everything.
+func TestF20_CustomConstraintWithMixedCaseName(t *testing.T) {
+	app := fiber.New()
+	app.RegisterCustomConstraint(rejectAll{"isAdmin"})
+	ran := false
+	app.Get("/u/:id<isAdmin>", func(c fiber.Ctx) error { ran = true; return nil })
+	rc := do(app, "GET", "/u/bob")
+	if ran || rc.Response.StatusCode() != 404 {
+		t.Fatalf("the handler ran (status %d) although the declared constraint rejects every value", rc.Response.StatusCode())
 	}
 }
